@@ -284,6 +284,26 @@ def _chunk(seeds):
                     while inner[0] != "N":
                         inner = inner[1]
                     d = next((x for x in S["types"] if x["name"] == inner[1]), None)
+                    # A1'' (every input object type, OneOf included): under the same variable values - x provided, x absent -
+                    # coercion of the literal with $x yields a result exactly when validation of it reports no error
+                    if isinstance(v, dict) and v and d is not None and d["kind"] == "INPUT_OBJECT" and t[0] != "L" and not (t[0] == "NN" and t[1][0] == "L"):
+                        fk0 = rnd.choice(sorted(v))
+                        fdef0 = next((f for f in d["inputFields"] if f["name"] == fk0), None)
+                        lit0 = to_literal_text({**v, fk0: VarRef("x")}, t, S, rnd)
+                        if fdef0 is not None and lit0 is not None and _jsonlike(v[fk0]):
+                            vt0 = fdef0["type"][1] if fdef0["type"][0] == "NN" else fdef0["type"]
+                            vdefs0 = parse("query ($x: %s) { __typename }" % gs.tstr(vt0)).definitions[0].variable_definitions
+                            node0 = parse_value(lit0)
+                            for label, inputs in (("provided", {"x": v[fk0]}), ("absent", {})):
+                                vv = get_variable_values(schema, vdefs0, inputs)
+                                if isinstance(vv, list):
+                                    continue
+                                c0 = coerce_input_literal(node0, gtype, vv)
+                                e0 = []
+                                validate_input_literal(node0, gtype, lambda e, p: e0.append(e.message), vv)
+                                if (c0 is not Undefined) != (not e0):
+                                    viol2.append(("A1-literal-with-variable-coerce-and-validate-disagree",
+                                                  {"literal": lit0[:100], "x": label, "coerced": repr(c0)[:80], "errors": e0[:2]}))
                     if ok2 and isinstance(v, dict) and v and d is not None and d["kind"] == "INPUT_OBJECT" and not d["oneOf"] and t[0] != "L" \
                             and not (t[0] == "NN" and t[1][0] == "L"):
                         fk = rnd.choice(sorted(v))
